@@ -205,6 +205,8 @@ CORNERS = [
     # compliances of 1e-10 (SI units) make the multiplier tiny: the user then has to tighten the *absolute* bisection tolerance
     dict(name="tiny-sensitivities-tight-bisection", obj="invsum", tol=1e-14, fs=1e-10, hist="conv", bounds="ss"),
     dict(name="tiny-sensitivities-tight-bisection-vv", obj="invsum", tol=1e-15, fs=1e-9, bounds="vv"),
+    dict(name="empty-variable-signal-in-the-middle", sizes=[3, 0, 2], kinds=["vec", "vec", "vec"], via="direct"),
+    dict(name="empty-variable-signal-first", sizes=[0, 4], kinds=["vec", "vec"], via="direct", obj="invsum"),
     dict(name="integer-typed-initial-design", sizes=[4, 2], kinds=["vec", "vec"], bounds="default", share="int-ones", via="direct", obj="invsum"),
 ]
 
